@@ -200,23 +200,12 @@ func TestVerifC01Approved(t *testing.T) {
 				t.Fatalf("report for %s lists a program build twice", week)
 			}
 			if overflow {
+				// a sum beyond int64 cannot be held to a value; which names are there can, and so can the
+				// values of the names whose own sums stayed in range
 				vstats.Label("exempt:int64-overflow")
-				// values are exempt; names are not
-				for b, g := range got {
-					w := want[b]
-					if w == nil {
-						t.Fatalf("unapproved program %v in report", b)
-					}
-					for k := range g.Counters {
-						if _, ok := w.Counters[k]; !ok {
-							t.Fatalf("unapproved counter %q in report", k)
-						}
-					}
-					for k := range g.Stacks {
-						if _, ok := w.Stacks[k]; !ok {
-							t.Fatalf("unapproved stack %q in report", k)
-						}
-					}
+				ovf := vmodel.Overflowed(expired)
+				if d := vmodel.DiffProgs(vmodel.ZeroValues(want, ovf), vmodel.ZeroValues(got, ovf)); d != "" {
+					t.Fatalf("uploaded report for %s (X=%v) differs from the approved aggregate (values of names whose sum leaves int64 not compared): %s", week, rep.X, d)
 				}
 			} else if d := vmodel.DiffProgs(want, got); d != "" {
 				t.Fatalf("uploaded report for %s (X=%v) differs from the approved aggregate: %s", week, rep.X, d)
@@ -275,7 +264,11 @@ func TestVerifC01Approved(t *testing.T) {
 			}
 			agg, overflow := vmodel.Aggregate(expired)
 			got, _ := vmodel.FromReport(&rep)
-			if !overflow {
+			if overflow {
+				// values are not compared (see above); the names are
+				agg, got = vmodel.ZeroValues(agg, nil), vmodel.ZeroValues(got, nil)
+			}
+			{
 				rendered, collided := vmodel.AsRenderedOf(agg, got)
 				if collided > 0 {
 					vstats.Label("renderedNamesCollide")
